@@ -263,6 +263,72 @@ def gen_nstart1_case(r):
     return {"cfgs": cfgs, "ev": ev, "kind": "nstart1"}
 
 
+# ---------------------------------------------------------------- waiting for an NSTART slot
+def gen_held_case(r):
+    """more Confirmables than NSTART slots: the surplus waits in the session's delay queue - its
+    timeout is drawn there (coap_session_delay_pdu) - and goes out when an ACK, an RST, a give-up or
+    a cancel frees a slot; from then on it must behave like any other message.  (Which message
+    gets the slot, and when, is C08's property.)"""
+    ns = r.choice([1, 1, 2])
+    cfgs = []
+    for _ in range(ns):
+        c = list(rand_cfg(r, nstart=r.choice([1, 1, 1, 2, 3])))
+        c[4] = r.choice([1, 2, 2, 3, 4])
+        cfgs.append(tuple(c))
+    ev = []
+    sent = []
+    mid = [r.randrange(60000) for _ in range(ns)]
+    toks = set()
+    n_msgs = r.randrange(2, 7)
+    for i in range(n_msgs):
+        s = r.randrange(ns)
+        m = rand_msg(r, s, mid[s])
+        while m[4] in toks:                 # distinct tokens (see rt_non in Retransmit.v)
+            m = rand_msg(r, s, mid[s])
+        toks.add(m[4])
+        mid[s] += 1
+        sent.append(m)
+        ev.append(m)
+        if r.random() < 0.15:
+            for _ in range(r.choice([1, 2])):   # the same mid again while it waits / is pending
+                d = list(m)
+                d[4] = "%08x" % r.randrange(1 << 32)
+                while d[4] in toks:
+                    d[4] = "%08x" % r.randrange(1 << 32)
+                toks.add(d[4])
+                sent.append(d)
+                ev.append(d)
+        x = r.random()
+        if x < 0.25:
+            ev.append(["A", r.choice([0, 1, 300, 1500])])
+        elif x < 0.4:
+            ev += [["T"], ["W", 0]]
+        elif x < 0.5:
+            ev.append(["Q"])
+    for _ in range(r.randrange(0, 8)):
+        x = r.random()
+        m = r.choice(sent)
+        if x < 0.35:
+            ev.append(ack_event(r, m))
+            no_empty_ack_for_request(ev, sent)
+        elif x < 0.6:
+            ev += [["T"], ["W", r.choice([0, 0, 7])]]
+        elif x < 0.7:
+            ev.append(["I", r.choice([0, 0, 1000])])
+        elif x < 0.8:
+            ev.append(["N", m[1], r.randrange(65536), 69, m[4]])
+        elif x < 0.86:
+            ev.append(["D", m[1], r.choice([1, 3])])
+        elif x < 0.93:
+            ev.append(["Q"])
+        else:
+            ev.append(["A", r.choice([1, 500, 2000, 9000])])
+    mx = max(eff_max(c) for c in cfgs)
+    ev += drain((mx + 2) * len(sent) + 2)
+    ev += [["T"], ["Q"]]
+    return {"cfgs": cfgs, "ev": ev, "kind": "held"}
+
+
 # ---------------------------------------------------------------- the library's own I/O loop
 def gen_ioloop_case(r):
     """messages driven by coap_io_process() itself (epoll_wait interposed: it sleeps exactly as long
